@@ -162,3 +162,69 @@ Definition w_indexed : node :=
               Node KAstTerminal [49] 29 (mkRange (mkPos 2 8) (mkPos 2 9)) [(0, AT (mkTok 29 (mkRange (mkPos 2 8) (mkPos 2 9)) TNumericLiteral [49]))] []]];
           Node KAstTerminal [50] 34 (mkRange (mkPos 2 13) (mkPos 2 14)) [(0, AT (mkTok 34 (mkRange (mkPos 2 13) (mkPos 2 14)) TNumericLiteral [50]))] []]]]].
 
+(* ---- added with the repair of the analyser (tools/c15_proposed_fix.diff): the method header is not a statement,
+        a called member, and one method mixing all the constructs ---- *)
+
+(* real parser, text: 'proc x\n var x : int4\nendproc' *)
+Definition w_hdr_name : node :=
+  Node KAstRoot [] 0 (mkRange (mkPos 0 0) (mkPos 0 0)) [] [
+    Node KAstProcedure [120] 0 (mkRange (mkPos 0 0) (mkPos 2 7)) [(5, AL [(mkTok 21 (mkRange (mkPos 2 0) (mkPos 2 7)) TEndProc [101;110;100;112;114;111;99])]); (6, AN 0)] [
+      Node KAstTerminal [120] 5 (mkRange (mkPos 0 5) (mkPos 0 6)) [(0, AT (mkTok 5 (mkRange (mkPos 0 5) (mkPos 0 6)) TIdentifier [120]))] [];
+      Node KAstMethodBody [109;101;116;104;111;100;95;98;111;100;121] 8 (mkRange (mkPos 1 1) (mkPos 1 13)) [] [
+        Node KAstLocalVariableDeclaration [120] 8 (mkRange (mkPos 1 1) (mkPos 1 13)) [(1, AT (mkTok 12 (mkRange (mkPos 1 5) (mkPos 1 6)) TIdentifier [120]))] [
+          Node KAstTypeBasic [105;110;116;52] 16 (mkRange (mkPos 1 9) (mkPos 1 13)) [(0, AT (mkTok 16 (mkRange (mkPos 1 9) (mkPos 1 13)) TIdentifier [105;110;116;52]))] []]]]].
+
+(* real parser, text: 'proc p(x : int4)\n var x : int4\nendproc' *)
+Definition w_hdr_param : node :=
+  Node KAstRoot [] 0 (mkRange (mkPos 0 0) (mkPos 0 0)) [] [
+    Node KAstProcedure [112] 0 (mkRange (mkPos 0 0) (mkPos 2 7)) [(5, AL [(mkTok 31 (mkRange (mkPos 2 0) (mkPos 2 7)) TEndProc [101;110;100;112;114;111;99])]); (6, AN 0)] [
+      Node KAstTerminal [112] 5 (mkRange (mkPos 0 5) (mkPos 0 6)) [(0, AT (mkTok 5 (mkRange (mkPos 0 5) (mkPos 0 6)) TIdentifier [112]))] [];
+      Node KAstParameterDeclarationList [112;97;114;97;109;95;100;101;99;108;115] 6 (mkRange (mkPos 0 6) (mkPos 0 16)) [] [
+        Node KAstParameterDeclaration [120] 7 (mkRange (mkPos 0 7) (mkPos 0 15)) [(1, AT (mkTok 7 (mkRange (mkPos 0 7) (mkPos 0 8)) TIdentifier [120])); (7, AL [])] [
+          Node KAstTypeBasic [105;110;116;52] 11 (mkRange (mkPos 0 11) (mkPos 0 15)) [(0, AT (mkTok 11 (mkRange (mkPos 0 11) (mkPos 0 15)) TIdentifier [105;110;116;52]))] []]];
+      Node KAstMethodBody [109;101;116;104;111;100;95;98;111;100;121] 18 (mkRange (mkPos 1 1) (mkPos 1 13)) [] [
+        Node KAstLocalVariableDeclaration [120] 18 (mkRange (mkPos 1 1) (mkPos 1 13)) [(1, AT (mkTok 22 (mkRange (mkPos 1 5) (mkPos 1 6)) TIdentifier [120]))] [
+          Node KAstTypeBasic [105;110;116;52] 26 (mkRange (mkPos 1 9) (mkPos 1 13)) [(0, AT (mkTok 26 (mkRange (mkPos 1 9) (mkPos 1 13)) TIdentifier [105;110;116;52]))] []]]]].
+
+(* real parser, text: 'proc p\n var x : int4\n self.x(1)\nendproc' *)
+Definition w_member_call : node :=
+  Node KAstRoot [] 0 (mkRange (mkPos 0 0) (mkPos 0 0)) [] [
+    Node KAstProcedure [112] 0 (mkRange (mkPos 0 0) (mkPos 3 7)) [(5, AL [(mkTok 32 (mkRange (mkPos 3 0) (mkPos 3 7)) TEndProc [101;110;100;112;114;111;99])]); (6, AN 0)] [
+      Node KAstTerminal [112] 5 (mkRange (mkPos 0 5) (mkPos 0 6)) [(0, AT (mkTok 5 (mkRange (mkPos 0 5) (mkPos 0 6)) TIdentifier [112]))] [];
+      Node KAstMethodBody [109;101;116;104;111;100;95;98;111;100;121] 8 (mkRange (mkPos 1 1) (mkPos 2 10)) [] [
+        Node KAstLocalVariableDeclaration [120] 8 (mkRange (mkPos 1 1) (mkPos 1 13)) [(1, AT (mkTok 12 (mkRange (mkPos 1 5) (mkPos 1 6)) TIdentifier [120]))] [
+          Node KAstTypeBasic [105;110;116;52] 16 (mkRange (mkPos 1 9) (mkPos 1 13)) [(0, AT (mkTok 16 (mkRange (mkPos 1 9) (mkPos 1 13)) TIdentifier [105;110;116;52]))] []];
+        Node KAstBinaryOp [46] 22 (mkRange (mkPos 2 1) (mkPos 2 10)) [(4, AT (mkTok 26 (mkRange (mkPos 2 5) (mkPos 2 6)) TDot [46]))] [
+          Node KAstTerminal [115;101;108;102] 22 (mkRange (mkPos 2 1) (mkPos 2 5)) [(0, AT (mkTok 22 (mkRange (mkPos 2 1) (mkPos 2 5)) TIdentifier [115;101;108;102]))] [];
+          Node KAstMethodCall [120] 27 (mkRange (mkPos 2 6) (mkPos 2 10)) [] [
+            Node KAstTerminal [49] 29 (mkRange (mkPos 2 8) (mkPos 2 9)) [(0, AT (mkTok 29 (mkRange (mkPos 2 8) (mkPos 2 9)) TNumericLiteral [49]))] []]]]]].
+
+(* real parser, text: 'proc p\n var a : int4\n var b : int4\n var c : int4\n var d : int4\n for A = 1 to 3\n  ob.a(B).c[d] = 1\n endfor\nendproc' *)
+Definition w_mixed : node :=
+  Node KAstRoot [] 0 (mkRange (mkPos 0 0) (mkPos 0 0)) [] [
+    Node KAstProcedure [112] 0 (mkRange (mkPos 0 0) (mkPos 8 7)) [(5, AL [(mkTok 106 (mkRange (mkPos 8 0) (mkPos 8 7)) TEndProc [101;110;100;112;114;111;99])]); (6, AN 0)] [
+      Node KAstTerminal [112] 5 (mkRange (mkPos 0 5) (mkPos 0 6)) [(0, AT (mkTok 5 (mkRange (mkPos 0 5) (mkPos 0 6)) TIdentifier [112]))] [];
+      Node KAstMethodBody [109;101;116;104;111;100;95;98;111;100;121] 8 (mkRange (mkPos 1 1) (mkPos 7 7)) [] [
+        Node KAstLocalVariableDeclaration [97] 8 (mkRange (mkPos 1 1) (mkPos 1 13)) [(1, AT (mkTok 12 (mkRange (mkPos 1 5) (mkPos 1 6)) TIdentifier [97]))] [
+          Node KAstTypeBasic [105;110;116;52] 16 (mkRange (mkPos 1 9) (mkPos 1 13)) [(0, AT (mkTok 16 (mkRange (mkPos 1 9) (mkPos 1 13)) TIdentifier [105;110;116;52]))] []];
+        Node KAstLocalVariableDeclaration [98] 22 (mkRange (mkPos 2 1) (mkPos 2 13)) [(1, AT (mkTok 26 (mkRange (mkPos 2 5) (mkPos 2 6)) TIdentifier [98]))] [
+          Node KAstTypeBasic [105;110;116;52] 30 (mkRange (mkPos 2 9) (mkPos 2 13)) [(0, AT (mkTok 30 (mkRange (mkPos 2 9) (mkPos 2 13)) TIdentifier [105;110;116;52]))] []];
+        Node KAstLocalVariableDeclaration [99] 36 (mkRange (mkPos 3 1) (mkPos 3 13)) [(1, AT (mkTok 40 (mkRange (mkPos 3 5) (mkPos 3 6)) TIdentifier [99]))] [
+          Node KAstTypeBasic [105;110;116;52] 44 (mkRange (mkPos 3 9) (mkPos 3 13)) [(0, AT (mkTok 44 (mkRange (mkPos 3 9) (mkPos 3 13)) TIdentifier [105;110;116;52]))] []];
+        Node KAstLocalVariableDeclaration [100] 50 (mkRange (mkPos 4 1) (mkPos 4 13)) [(1, AT (mkTok 54 (mkRange (mkPos 4 5) (mkPos 4 6)) TIdentifier [100]))] [
+          Node KAstTypeBasic [105;110;116;52] 58 (mkRange (mkPos 4 9) (mkPos 4 13)) [(0, AT (mkTok 58 (mkRange (mkPos 4 9) (mkPos 4 13)) TIdentifier [105;110;116;52]))] []];
+        Node KAstForBlock [102;111;114] 64 (mkRange (mkPos 5 1) (mkPos 7 7)) [(1, AT (mkTok 68 (mkRange (mkPos 5 5) (mkPos 5 6)) TIdentifier [65])); (5, AL [(mkTok 99 (mkRange (mkPos 7 1) (mkPos 7 7)) TEndFor [101;110;100;102;111;114])])] [
+          Node KAstBinaryOp [116;111] 72 (mkRange (mkPos 5 9) (mkPos 5 15)) [(4, AT (mkTok 74 (mkRange (mkPos 5 11) (mkPos 5 13)) TTo [116;111]))] [
+            Node KAstTerminal [49] 72 (mkRange (mkPos 5 9) (mkPos 5 10)) [(0, AT (mkTok 72 (mkRange (mkPos 5 9) (mkPos 5 10)) TNumericLiteral [49]))] [];
+            Node KAstTerminal [51] 77 (mkRange (mkPos 5 14) (mkPos 5 15)) [(0, AT (mkTok 77 (mkRange (mkPos 5 14) (mkPos 5 15)) TNumericLiteral [51]))] []];
+          Node KAstBinaryOp [61] 81 (mkRange (mkPos 6 2) (mkPos 6 18)) [(4, AT (mkTok 94 (mkRange (mkPos 6 15) (mkPos 6 16)) TEquals [61]))] [
+            Node KAstBinaryOp [46] 81 (mkRange (mkPos 6 2) (mkPos 6 14)) [(4, AT (mkTok 88 (mkRange (mkPos 6 9) (mkPos 6 10)) TDot [46]))] [
+              Node KAstBinaryOp [46] 81 (mkRange (mkPos 6 2) (mkPos 6 9)) [(4, AT (mkTok 83 (mkRange (mkPos 6 4) (mkPos 6 5)) TDot [46]))] [
+                Node KAstTerminal [111;98] 81 (mkRange (mkPos 6 2) (mkPos 6 4)) [(0, AT (mkTok 81 (mkRange (mkPos 6 2) (mkPos 6 4)) TIdentifier [111;98]))] [];
+                Node KAstMethodCall [97] 84 (mkRange (mkPos 6 5) (mkPos 6 9)) [] [
+                  Node KAstTerminal [66] 86 (mkRange (mkPos 6 7) (mkPos 6 8)) [(0, AT (mkTok 86 (mkRange (mkPos 6 7) (mkPos 6 8)) TIdentifier [66]))] []]];
+              Node KAstArrayAccess [99] 89 (mkRange (mkPos 6 10) (mkPos 6 14)) [] [
+                Node KAstTerminal [99] 89 (mkRange (mkPos 6 10) (mkPos 6 11)) [(0, AT (mkTok 89 (mkRange (mkPos 6 10) (mkPos 6 11)) TIdentifier [99]))] [];
+                Node KAstTerminal [100] 91 (mkRange (mkPos 6 12) (mkPos 6 13)) [(0, AT (mkTok 91 (mkRange (mkPos 6 12) (mkPos 6 13)) TIdentifier [100]))] []]];
+            Node KAstTerminal [49] 96 (mkRange (mkPos 6 17) (mkPos 6 18)) [(0, AT (mkTok 96 (mkRange (mkPos 6 17) (mkPos 6 18)) TNumericLiteral [49]))] []]]]]].
+
